@@ -35,11 +35,12 @@ Theorem C02_refuted_unsolved_in_output :
 Proof. exact c02_unsolved_witness. Qed.
 Print Assumptions C02_refuted_unsolved_in_output.
 
-(* ... and a requested extra can be dropped (the same witness as C01): b[y] is required by a-1.0,
-   yet b's extra y is never expanded, so its dependency on c<2 is not part of the closure. *)
-Theorem C02_refuted_extra_dropped :
+(* (after the /repo fix that combines the reasons of one edge) the former second counter-example - a requested
+   extra dropped when the edge reason was overwritten - now expands b with extras y and z, so b[y]'s dependency
+   c<2 is part of the closure: c==1.0. *)
+Theorem C02_requested_extra_is_expanded :
   w_c01_extras_overwrite_pins (w_c01_extras_overwrite_run 100)
-    = [Some (Some "1.0"); Some (Some "1.0"); Some (Some "2.0")] /\
-  spec_contains [mkC OLt (mkV 0 [2%N] None None None []) false] (mkV 0 [2%N; 0%N] None None None []) true = false.
-Proof. exact c01_extras_overwrite_witness. Qed.
-Print Assumptions C02_refuted_extra_dropped.
+    = [Some (Some "1.0"); Some (Some "1.0"); Some (Some "1.0")] /\
+  spec_contains [mkC OLt (mkV 0 [2%N] None None None []) false] (mkV 0 [1%N; 0%N] None None None []) true = true.
+Proof. exact c01_extras_combined_witness. Qed.
+Print Assumptions C02_requested_extra_is_expanded.
